@@ -245,6 +245,32 @@ class CrudProfile(StoreProfile):
         for n in range(1, nmax + 1):
             for combo in itertools.product(range(len(ops)), repeat=n):
                 yield {"params": {"listing": "sorted", "sweep": list(combo)}, "steps": [head] + [ops[i] for i in combo]}
+        # second alphabet (thorough): an extension twin sharing the sidecar, and a Sid whose creation makes new ancestors
+        if tier != "thorough":
+            return
+        exts = [e for e in (vocab.values(t, model.by_name[t].keys[-1]) or []) if e != segs[-1]]
+        f2 = "/".join(segs[:-1] + [exts[0]]) if exts else f1
+        h = f1
+        for i, k in enumerate(model.by_name[t].keys):
+            if model.vocab(t, k)[0] == "free":
+                alt = [v for v in vocab.values(t, k) if v != segs[i]]
+                if alt:
+                    h = "/".join(segs[:i] + [alt[0]] + segs[i + 1:])
+                break
+        alpha2 = {"F1": f1, "F2": f2, "H": h}
+        ops2 = [
+            {"op": "create", "cfg": cfg, "sid": f1, "data": {"a": 0}},
+            {"op": "create", "cfg": cfg, "sid": f2, "data": {"c": "twin"}},
+            {"op": "create", "cfg": cfg, "sid": h, "data": None},
+            {"op": "write", "cfg": cfg, "sid": f1, "how": "set", "data": {"a": 1}},
+            {"op": "write", "cfg": cfg, "sid": f2, "how": "update", "data": {"a": 2}},
+            {"op": "write", "cfg": cfg, "sid": h, "how": "set", "data": {"a": 3}},
+            {"op": "restart"},
+        ]
+        head2 = {"op": "alphabet", "sids": alpha2}
+        for n in range(1, 5):
+            for combo in itertools.product(range(len(ops2)), repeat=n):
+                yield {"params": {"listing": "sorted", "sweep2": list(combo)}, "steps": [head2] + [ops2[i] for i in combo]}
 
 
 PROFILE = CrudProfile()
